@@ -128,8 +128,27 @@ Section Order.
   Lemma blen_v2_base h : blen (pragma ++ enc_v2hdr h) = 51.
   Proof. rewrite blen_app, blen_enc_v2hdr. reflexivity. Qed.
 
-  (* no uint64 wrap-around anywhere in the header arithmetic *)
-  Definition no_wrap (o : topts) (size : N) : bool := 51 + o_dpad o + size + o_ipad o <? two64.
+  (* the paddings can be allocated: make([]byte, n) panics above max_alloc; the index padding is
+     only allocated when an index is written *)
+  Definition pads_ok (o : topts) : bool :=
+    (o_dpad o <=? max_alloc) && ((o_codec o =? codec_none) || (o_ipad o <=? max_alloc)).
+  (* no uint64 wrap-around anywhere in the header arithmetic that matters (the index offset is
+     overwritten with 0 when there is no index), and the paddings can be allocated *)
+  Definition no_wrap (o : topts) (size : N) : bool :=
+    (51 + o_dpad o + size + (if o_codec o =? codec_none then 0 else o_ipad o) <? two64) && pads_ok o.
+
+  (* allocatable paddings and a payload below 2^63 bytes cannot wrap anything *)
+  Lemma no_wrap_of_pads o size : pads_ok o = true -> size < two63 -> no_wrap o size = true.
+  Proof.
+    unfold no_wrap, pads_ok. intros H Hs.
+    apply andb_true_iff in H. destruct H as [H1 H2].
+    apply andb_true_iff. split.
+    - apply N.ltb_lt. apply N.leb_le in H1.
+      destruct (o_codec o =? codec_none); cbn [orb] in H2.
+      + unfold max_alloc, two63, two64 in *; lia.
+      + apply N.leb_le in H2. unfold max_alloc, two63, two64 in *; lia.
+    - apply andb_true_iff. split; assumption.
+  Qed.
 
   Definition v2_header (o : topts) (size : N) : v2hdr :=
     mkv2 0 0 (51 + o_dpad o) size
@@ -138,20 +157,27 @@ Section Order.
   Lemma tc_header_no_wrap o size : no_wrap o size = true -> tc_header o size = v2_header o size.
   Proof.
     unfold no_wrap, tc_header, v2_header, new_header, with_data_padding, with_index_padding, wrap64.
-    intros H. assert (H' : 51 + o_dpad o + size + o_ipad o < two64) by lia. clear H.
-    destruct (0 <? o_dpad o) eqn:Ed; destruct (0 <? o_ipad o) eqn:Ei;
+    intros H. apply andb_true_iff in H. destruct H as [H _].
+    destruct (o_codec o =? codec_none);
+      (assert (H' : 51 + o_dpad o + size < two64) by lia);
+      destruct (0 <? o_dpad o) eqn:Ed; destruct (0 <? o_ipad o) eqn:Ei;
       cbn [h_hi h_lo h_doff h_dsize h_ioff];
-      destruct (o_codec o =? codec_none); cbn [h_hi h_lo h_doff h_dsize h_ioff];
       unfold two64 in *; f_equal; lia.
   Qed.
+
+  Lemma no_wrap_dpad o size : no_wrap o size = true -> o_dpad o <= max_alloc.
+  Proof. unfold no_wrap, pads_ok. intros H. lia. Qed.
+  Lemma no_wrap_ipad o size : no_wrap o size = true -> o_codec o =? codec_none = false -> o_ipad o <= max_alloc.
+  Proof. unfold no_wrap, pads_ok. intros H E. rewrite E in H. cbn [orb] in H. lia. Qed.
 
   Lemma write_v2_header_no_wrap o size : no_wrap o size = true ->
     write_v2_header o size = (pragma ++ enc_v2hdr (v2_header o size) ++ zerosN (o_dpad o), None).
   Proof.
     intros H. unfold write_v2_header. rewrite tc_header_no_wrap by exact H.
-    rewrite blen_v2_base. cbn [v2_header h_doff].
+    rewrite blen_v2_base. cbn [v2_header h_doff]. pose proof (no_wrap_dpad o size H) as Hd.
     destruct (51 <? 51 + o_dpad o) eqn:E.
-    - replace (51 + o_dpad o - 51) with (o_dpad o) by lia. rewrite <- app_assoc. reflexivity.
+    - replace (51 + o_dpad o - 51) with (o_dpad o) by lia.
+      replace (max_alloc <? o_dpad o) with false by lia. rewrite <- app_assoc. reflexivity.
     - replace (51 + o_dpad o <? 51) with false by lia.
       assert (o_dpad o = 0) as -> by lia. unfold zerosN. cbn [N.to_nat zeros]. rewrite app_nil_r. reflexivity.
   Qed.
@@ -203,7 +229,9 @@ Section Order.
     destruct (o_codec o =? codec_none) eqn:Ec.
     - cbn [fst snd]. rewrite app_nil_r. rewrite blen_app. reflexivity.
     - destruct (writer_index order (o_codec o) (v1_recs root ls)) as [i|] eqn:Ew; cbn [fst snd].
-      + rewrite ipad_zeros. f_equal. rewrite !blen_app. lia.
+      + pose proof (no_wrap_ipad o tcsize Hnw Ec) as Hi.
+        replace (max_alloc <? o_ipad o) with false by lia.
+        rewrite ipad_zeros. f_equal. rewrite !blen_app. lia.
       + rewrite app_nil_r. rewrite blen_app. reflexivity.
   Qed.
 
@@ -279,7 +307,10 @@ Section Order.
 
   (* ---- TraverseToFile ------------------------------------------------------------------------------- *)
   Lemma no_wrap_mono o a b : a <= b -> no_wrap o b = true -> no_wrap o a = true.
-  Proof. unfold no_wrap. intros. lia. Qed.
+  Proof.
+    unfold no_wrap. intros Hab H. apply andb_true_iff in H. destruct H as [H1 H2]. rewrite H2, andb_true_r.
+    destruct (o_codec o =? codec_none); lia.
+  Qed.
 
   Theorem traverse_to_file_spec root o ls : Forall load_ok ls ->
     let o' := apply_opts o in
@@ -322,6 +353,146 @@ Section Order.
     - rewrite head_size_blen in Hin.
       destruct (place_locates _ (ld (hdr1 root)) [] b off sz Hin) as (H1 & H2 & H3 & _).
       rewrite app_nil_r in H1. rewrite <- blen_enc_section. rewrite <- H2. split; [exact H1|exact H3].
+  Qed.
+  (* ---- paddings that cannot be allocated, and uint64 wrap of the index offset ---------------------- *)
+  Lemma tc_header_doff o size :
+    h_doff (tc_header o size) = if 0 <? o_dpad o then (51 + o_dpad o) mod two64 else 51.
+  Proof.
+    unfold tc_header, new_header, with_data_padding, with_index_padding, wrap64.
+    destruct (0 <? o_dpad o); destruct (0 <? o_ipad o); destruct (o_codec o =? codec_none); reflexivity.
+  Qed.
+
+  (* WriteV2Header reports no error only if the data offset did not wrap and the data padding could
+     be allocated (paddings are uint64 options) *)
+  Lemma write_v2_header_ok_inv o size : o_dpad o < two64 ->
+    snd (write_v2_header o size) = None -> o_dpad o <= max_alloc.
+  Proof.
+    intros Hu. unfold write_v2_header. rewrite blen_v2_base, tc_header_doff.
+    destruct (0 <? o_dpad o) eqn:E0; [|unfold max_alloc; lia].
+    destruct (51 <? (51 + o_dpad o) mod two64) eqn:E1.
+    - destruct (max_alloc <? (51 + o_dpad o) mod two64 - 51) eqn:E2; cbn [snd]; [discriminate|].
+      intros _. unfold two64, max_alloc in *. lia.
+    - destruct ((51 + o_dpad o) mod two64 <? 51) eqn:E3; cbn [snd]; [discriminate|].
+      intros _. unfold two64, max_alloc in *. lia.
+  Qed.
+
+  (* a data padding above the allocation limit whose data offset still fits: pragma and header
+     (possibly with a wrapped index offset) go out, then make() panics *)
+  Lemma write_v2_header_panics o size : max_alloc < o_dpad o -> 51 + o_dpad o < two64 ->
+    snd (write_v2_header o size) = Some TPanic.
+  Proof.
+    intros H1 H2. unfold write_v2_header. rewrite blen_v2_base, tc_header_doff.
+    replace (0 <? o_dpad o) with true by (unfold max_alloc in *; lia).
+    rewrite N.mod_small by exact H2.
+    replace (51 <? 51 + o_dpad o) with true by (unfold max_alloc in *; lia).
+    replace (max_alloc <? 51 + o_dpad o - 51) with true by lia. reflexivity.
+  Qed.
+
+  (* WriteTo reports success only if both paddings could be allocated *)
+  Lemma write_to_success_pads root o tcsize ls ok : Forall load_ok ls -> o_dpad o < two64 ->
+    w_err (write_to order root o tcsize (mktrace ls ok)) = None -> pads_ok o = true.
+  Proof.
+    intros Hok Hu. unfold write_to, pads_ok.
+    pose proof (write_v2_header_ok_inv o tcsize Hu) as Hd.
+    destruct (write_v2_header o tcsize) as [hb [e|]]; [cbn; discriminate|].
+    specialize (Hd eq_refl). replace (o_dpad o <=? max_alloc) with true by lia. cbn [andb].
+    rewrite write_v1_spec by exact Hok. cbn [v_bytes v_size v_res].
+    destruct (negb ok); [cbn; discriminate|].
+    destruct (negb (tcsize =? 0) && negb (tcsize =? blen (enc_payload [root] (first_occ (blocks_of ls)))));
+      [cbn; discriminate|].
+    destruct (o_codec o =? codec_none); [reflexivity|]. cbn [orb].
+    destruct (writer_index order (o_codec o) (v1_recs root ls)); [|cbn; discriminate].
+    destruct (max_alloc <? o_ipad o) eqn:E; [cbn; discriminate|]. intros _. lia.
+  Qed.
+
+  (* THE GAP "data offset fits, index offset wraps": it never ends in success.  With an index, a
+     payload below 2^63 bytes and uint64 paddings, 51+dpad+size+ipad >= 2^64 forces a padding above
+     the allocation limit, so WriteTo panics (or has failed earlier) -- after having written a
+     header whose index offset is wrapped. *)
+  Theorem index_offset_wrap_never_succeeds root o tcsize ls ok :
+    Forall load_ok ls -> o_dpad o < two64 -> tcsize < two63 ->
+    o_codec o =? codec_none = false ->
+    two64 <= 51 + o_dpad o + tcsize + o_ipad o ->
+    w_err (write_to order root o tcsize (mktrace ls ok)) <> None.
+  Proof.
+    intros Hok Hu Hs Hc Hw He. pose proof (write_to_success_pads root o tcsize ls ok Hok Hu He) as Hp.
+    unfold pads_ok in Hp. apply andb_true_iff in Hp. destruct Hp as [H1 H2].
+    rewrite Hc in H2. cbn [orb] in H2. apply N.leb_le in H1. apply N.leb_le in H2.
+    clear He Hok. unfold max_alloc, two63, two64 in *. lia.
+  Qed.
+
+  (* an index padding above the limit, everything else fine: payload written, then the panic *)
+  Lemma write_to_ipad_panics root o ls i :
+    Forall load_ok ls -> o_dpad o <= max_alloc -> 51 + o_dpad o < two64 ->
+    o_codec o =? codec_none = false -> max_alloc < o_ipad o ->
+    writer_index order (o_codec o) (v1_recs root ls) = Some i ->
+    w_err (write_to order root o 0 (mktrace ls true)) = Some TPanic.
+  Proof.
+    intros Hok Hd Hf Hc Hi Hw. unfold write_to.
+    assert (Hh : snd (write_v2_header o 0) = None).
+    { unfold write_v2_header. rewrite blen_v2_base, tc_header_doff.
+      destruct (0 <? o_dpad o) eqn:E0; [|reflexivity].
+      rewrite N.mod_small by exact Hf.
+      replace (51 <? 51 + o_dpad o) with true by lia.
+      replace (max_alloc <? 51 + o_dpad o - 51) with false by lia. reflexivity. }
+    destruct (write_v2_header o 0) as [hb e]. cbn [snd] in Hh. subst e.
+    rewrite write_v1_spec by exact Hok. cbn [v_bytes v_size v_res negb N.eqb andb].
+    rewrite Hc, Hw. replace (max_alloc <? o_ipad o) with true by lia. reflexivity.
+  Qed.
+
+  (* ---- the main statements with the guard "paddings allocatable, payload below 2^63 bytes" ----------- *)
+  Theorem selective_write_spec_pads root o ls1 ls2 :
+    Forall reads_all ls1 -> Forall load_ok ls2 -> blocks_of ls1 = blocks_of ls2 ->
+    let o' := apply_opts o in
+    let P := enc_payload [root] (first_occ (blocks_of ls2)) in
+    pads_ok o' = true -> blen P < two63 ->
+    let H := pragma ++ enc_v2hdr (v2_header o' (blen P)) ++ zerosN (o_dpad o') in
+    let tl := index_tail o' (v1_recs root ls2) in
+    selective_write order true root o (mktrace ls1 true) (mktrace ls2 true)
+    = Some (mkw (H ++ P ++ fst tl) (blen (H ++ P ++ fst tl)) (snd tl) (blen P)).
+  Proof.
+    intros Hr Hok Heq o' P Hp Hs. apply selective_write_spec; try assumption.
+    apply no_wrap_of_pads; assumption.
+  Qed.
+
+  (* success of WriteTo alone (no guard on the paddings beyond being uint64) *)
+  Theorem selective_write_sound_pads fixed root o tr1 ls2 size w :
+    Forall load_ok ls2 ->
+    new_selective_writer fixed root tr1 = Some size ->
+    let o' := apply_opts o in
+    o_dpad o' < two64 -> size < two63 ->
+    selective_write order fixed root o tr1 (mktrace ls2 true) = Some w -> w_err w = None ->
+    let P := enc_payload [root] (first_occ (blocks_of ls2)) in
+    let tl := index_tail o' (v1_recs root ls2) in
+    size = blen P
+    /\ w_bytes w = (pragma ++ enc_v2hdr (v2_header o' (blen P)) ++ zerosN (o_dpad o')) ++ P ++ fst tl
+    /\ w_n w = blen (w_bytes w)
+    /\ 51 + o_dpad o' + blen P + (if o_codec o' =? codec_none then 0 else o_ipad o') < two64.
+  Proof.
+    intros Hok Hn o' Hu Hs Hsel He P tl.
+    assert (Hp : pads_ok o' = true).
+    { unfold selective_write in Hsel. rewrite Hn in Hsel. fold o' in Hsel.
+      assert (Hw : w = write_to order root o' size (mktrace ls2 true)) by congruence.
+      rewrite Hw in He. eapply write_to_success_pads; eassumption. }
+    pose proof (no_wrap_of_pads o' size Hp Hs) as Hnw.
+    destruct (selective_write_sound fixed root o tr1 ls2 size w Hok Hn Hnw Hsel He) as (H1 & H2 & H3).
+    split; [exact H1|]. split; [exact H2|]. split; [exact H3|].
+    fold P in H1. rewrite <- H1. unfold no_wrap in Hnw. apply andb_true_iff in Hnw. destruct Hnw as [Hnw _]. lia.
+  Qed.
+
+  Theorem traverse_to_file_spec_pads root o ls : Forall load_ok ls ->
+    let o' := apply_opts o in
+    let P := enc_payload [root] (first_occ (blocks_of ls)) in
+    pads_ok o' = true -> blen P < two63 ->
+    let H := pragma ++ enc_v2hdr (v2_header o' (blen P)) ++ zerosN (o_dpad o') in
+    let tl := index_tail o' (v1_recs root ls) in
+    traverse_to_file order root o (mktrace ls true)
+    = match snd tl with
+      | None => (H ++ P ++ fst tl, None)
+      | Some e => ((pragma ++ enc_v2hdr (v2_header o' 0) ++ zerosN (o_dpad o')) ++ P ++ fst tl, Some e)
+      end.
+  Proof.
+    intros Hok o' P Hp Hs. apply traverse_to_file_spec; [exact Hok|]. apply no_wrap_of_pads; assumption.
   Qed.
 End Order.
 
